@@ -232,6 +232,11 @@ func c01HeaderFile(seed uint64, part string, only bool, zero bool) *pbfw.File {
 func c01Check(res *fw.Result, f *pbfw.File, procs int, chunk int, key string) {
 	data, _ := f.Encode(nil)
 	rd := mon.NewReader(data)
+	if chunk < 0 {
+		// a reader that returns its last bytes together with io.EOF (gzip readers, HTTP bodies)
+		rd.EagerEOF = true
+		chunk = -chunk - 1
+	}
 	rd.Chunk = chunk
 	ctx := context.Background()
 	if procs <= 0 && len(data)%2 == 0 {
@@ -279,6 +284,32 @@ func c01Exec(c fw.Case) *fw.Result {
 		key := fmt.Sprintf("C01/header/%s/only%v/zero%v", part, only, zero)
 		c01Check(res, f, procs, 0, key)
 		res.Eval(fmt.Sprintf("header/%s/only%v/zero%v", part, only, zero))
+	case "degenerate":
+		// valid streams with (next to) nothing in them
+		r := gen.New(c.Seed, "c01degenerate")
+		f := pbfw.GenFile(r, pbfw.GenOpts{MinBlocks: 2, MaxBlocks: 4, MaxGroups: 2, MaxElems: 5})
+		shape := []string{"header-only", "blocks-without-groups", "groups-without-elements", "empty-block-between", "headerless-empty-blocks"}[int(c.Int("shape"))%5]
+		switch shape {
+		case "header-only":
+			f.Blocks = nil
+		case "blocks-without-groups":
+			for _, b := range f.Blocks {
+				b.Groups = nil
+			}
+		case "groups-without-elements":
+			for _, b := range f.Blocks {
+				b.Groups = []*pbfw.Group{{Kind: pbfw.KWays}, {Kind: pbfw.KRelations}}
+			}
+		case "empty-block-between":
+			f.Blocks[1].Groups = nil
+		case "headerless-empty-blocks":
+			f.Header = nil
+			f.Blocks[0].Groups = nil
+		}
+		key := "C01/degenerate/" + shape
+		c01Check(res, f, procs, int(c.Int("chunk")), key)
+		res.Eval(fmt.Sprintf("degenerate/%s/chunk%d", shape, c.Int("chunk")))
+		res.Sample = map[string]any{"shape": shape, "procs": procs, "blocks": len(f.Blocks)}
 	case "limits":
 		// sizes exactly at the format's hard limits are valid: a BlobHeader of up to 65535
 		// bytes ("must be less than 64 KiB") and a Blob of up to 32 MiB - 1 bytes; also the
@@ -413,6 +444,9 @@ func c01Cases(tier string, seed uint64) []fw.Case {
 				}
 			}
 		}
+		for i := 0; i < 20; i++ {
+			cs = append(cs, fw.Case{Kind: "degenerate", Variant: v, Seed: gen.Sub(seed, "c01deg", i), P: map[string]int64{"shape": int64(i % 5), "procs": []int64{1, 3, 16, 0}[i/5], "chunk": []int64{0, -1, 5, -8}[(i/5+i)%4]}})
+		}
 		if vi == 0 {
 			li := 0
 			for _, sz := range []int64{32767, 32768, 65534, 65535} {
@@ -437,6 +471,10 @@ func c01Cases(tier string, seed uint64) []fw.Case {
 		for i := 0; i < n; i++ {
 			chunk := int64(0)
 			switch i % 7 {
+			case 1:
+				chunk = -1 // unlimited reads, the last one together with io.EOF
+			case 2:
+				chunk = -8 // 7-byte reads, the last one together with io.EOF
 			case 3:
 				chunk = 1
 			case 5:
@@ -486,7 +524,7 @@ func init() {
 		ID:    "C01",
 		Level: "exploration",
 		Rule: "files written by the independent PBF writer: (a) systematic present/absent toggles of each of 33 optional parts between consecutive blocks on the same decoder, consecutive groups of a block and consecutive elements of a group, each header field alone and all-but-it; " +
-			"(b) PRNG files of 1-40 blocks, 1-4 groups, 0-40 elements (plus a few files with up to 9000 elements per group, the size class of real extracts), arbitrary UTF-8, header bounding boxes whose four corners are independent numbers (one hemisphere, left > right, bottom > top), granularity/offset/date-granularity classes, raw and zlib, shuffled field order and string table, unknown fields; a fifth of the files with unusual-but-valid values (ids zero / negative / beyond 2^40 / repeated / unsorted, versions uids changesets at the ends of their types, strings of up to 70 kB, 300 tags, 2000 refs, 3000 members, duplicate tag keys) and a tenth in which every block is followed by a structural twin with different values or by an exact copy; blocks whose BlobHeader is exactly 32767 / 32768 / 65534 / 65535 bytes and whose Blob is exactly 16 MiB ± 1, 32 MiB − 2 and 32 MiB − 1 bytes (the hard limits are exclusive), a compressed blob inflating to 24 MiB; decoder counts {1,2,3,5,16,32} and the degenerate 0 / -1 (one decoder), nil context, chunked readers; both zlib back-ends (cgo/czlib and pure Go). " +
+			"(b) PRNG files of 1-40 blocks, 1-4 groups, 0-40 elements (plus a few files with up to 9000 elements per group, the size class of real extracts), arbitrary UTF-8, header bounding boxes whose four corners are independent numbers (one hemisphere, left > right, bottom > top), granularity/offset/date-granularity classes, raw and zlib, shuffled field order and string table, unknown fields; a fifth of the files with unusual-but-valid values (ids zero / negative / beyond 2^40 / repeated / unsorted, versions uids changesets at the ends of their types, strings of up to 70 kB, 300 tags, 2000 refs, 3000 members, duplicate tag keys) and a tenth in which every block is followed by a structural twin with different values or by an exact copy; blocks whose BlobHeader is exactly 32767 / 32768 / 65534 / 65535 bytes and whose Blob is exactly 16 MiB ± 1, 32 MiB − 2 and 32 MiB − 1 bytes (the hard limits are exclusive), a compressed blob inflating to 24 MiB; decoder counts {1,2,3,5,16,32} and the degenerate 0 / -1 (one decoder), nil context, chunked readers and readers that return their last bytes together with io.EOF; degenerate streams (header only, blocks without groups, groups without elements, header-less streams starting with an empty block); both zlib back-ends (cgo/czlib and pure Go). " +
 			"A signature is the presence-bit/parameter-class vector of a block with >=1 element, or the toggled part and level; distinct_nontrivial counts distinct signatures.",
 		Assumptions: []string{
 			"an absent timestamp may be delivered as Go's zero time or as the Unix epoch (both are zero metadata); generated present timestamps are never 0",
